@@ -743,6 +743,22 @@ def r7(rr, repo):
     rr.ob('execute_xforms applies the chain front to back (plain iteration over the list)', len(ex) == 1, mod, ex[0] if ex else exe, witness='; '.join(U(n.iter) for n in walk_scope(exe) if isinstance(n, ast.For))[:100], key='chain-executed-in-order')
 
 
+def _vfactor_int(core, dim_term, W='width', H='height', w='image.shape[1]', h='image.shape[0]'):
+    """the same classification for integer arithmetic: `dim * W // w` is the frame dimension times the width ratio, rounded down exactly"""
+    t = U(core).replace(' ', '')
+    if t == W:
+        return 'bound-w'
+    if t == H:
+        return 'bound-h'
+    if t == dim_term:
+        return 'id'
+    if t in (f'{dim_term}*{W}//{w}', f'{W}*{dim_term}//{w}'):
+        return 'wr'
+    if t in (f'{dim_term}*{H}//{h}', f'{H}*{dim_term}//{h}'):
+        return 'hr'
+    return _vfactor(core, dim_term, W, H, w, h)
+
+
 def _vfactor(core, dim_term, W='width', H='height', w='image.shape[1]', h='image.shape[0]'):
     """video reader terms: which ratio scales the frame dimension `dim_term` in core: 'id' | 'wr' | 'hr' | 'min' | 'max' | 'bound-w' | 'bound-h' | None"""
     t = U(core).replace(' ', '')
@@ -756,6 +772,10 @@ def _vfactor(core, dim_term, W='width', H='height', w='image.shape[1]', h='image
         return None
     e = U(core.args[0]).replace(' ', '')
     wr, hr = f'{W}/{w}', f'{H}/{h}'
+    return _vratio(e, dim_term, wr, hr)
+
+
+def _vratio(e, dim_term, wr, hr):
     if e == f'{dim_term}*{wr}':
         return 'wr'
     if e == f'{dim_term}*{hr}':
@@ -781,7 +801,18 @@ def r8(rr, repo):
             if not (isinstance(size, ast.Tuple) and len(size.elts) == 2):
                 continue
             cw, ch = _strip_bounds_v(size.elts[0]), _strip_bounds_v(size.elts[1])
-            fw, fh = _vfactor(cw, wt), _vfactor(ch, ht)
+            fw, fh = _vfactor_int(cw, wt), _vfactor_int(ch, ht)
+            # which ratio is the smaller one on this path, if the code compared them (cross-multiplied: width * h against height * w)
+            smaller = None
+            for k, v in p.pc:
+                m_ = re.fullmatch(r'ord\((.+?) \* (.+?), (.+?) \* (.+?)\)', k)
+                if not m_:
+                    continue
+                A, B = {m_.group(1), m_.group(2)}, {m_.group(3), m_.group(4)}
+                if A == {'height', wt} and B == {'width', ht}:        # height * w  ?  width * h   <=>   height / h  ?  width / w
+                    smaller = {'<': 'hr', '>': 'wr', '=': 'eq'}.get(v, smaller)
+                elif A == {'width', ht} and B == {'height', wt}:
+                    smaller = {'<': 'wr', '>': 'hr', '=': 'eq'}.get(v, smaller)
             if fw is None or fh is None:
                 rr.unresolved('video reader: a dimension handed to cv2.resize is not the frame dimension times a recognised ratio', vmod, e.node, witness=U(size)[:160], key='vaspect-form')
                 continue
@@ -805,14 +836,26 @@ def r8(rr, repo):
                 why = f'width x {fw}, height x {fh}'
                 if (fw, fh) == ('bound-w', 'wr'):
                     # width := bound, height scaled by the width ratio: inside the box only if the width ratio is the smaller one, i.e. the frame is wider than the box (its height being right already)
-                    ok = w_over is True
-                    why += f'; frame wider than the box: {w_over}'
+                    # - or the code has just compared the two ratios and found the width ratio to be the smaller (or equal) one
+                    ok = w_over is True or smaller in ('wr', 'eq')
+                    why += f'; frame wider than the box: {w_over}; smaller ratio on this path: {smaller}'
+                    if smaller in ('wr', 'eq'):
+                        seen.add(('resize', 'cmp', 'w'))
                 elif (fw, fh) == ('hr', 'bound-h'):
-                    ok = h_over is True
-                    why += f'; frame higher than the box: {h_over}'
+                    ok = h_over is True or smaller in ('hr', 'eq')
+                    why += f'; frame higher than the box: {h_over}; smaller ratio on this path: {smaller}'
+                    if smaller in ('hr', 'eq'):
+                        seen.add(('resize', 'cmp', 'h'))
                 rr.ob("video reader aspect-keeping resize: the result lies inside the requested box (a bound is imposed on one dimension only when the frame exceeds it there; otherwise both are scaled by the smaller ratio or left alone)",
                       ok, vmod, e.node, witness=why + ' | ' + p.pc_text()[-160:], key=f'vresize|{fw}|{fh}')
+                if (fw, fh) == ('min', 'min'):
+                    # the LARGEST size inside the box touches the box on its limiting side: int(w * (width / w)) does not - in floating point the product can come out just below width and is cut to
+                    # width - 1 (720 * (416 / 720) = 415.99999999999994); the limiting side has to be the bound itself
+                    rr.ob("video reader aspect-keeping resize: the limiting side of the general case is the requested bound itself, not a rounded-down product that can fall one short of it", False, vmod, e.node,
+                          witness=U(size)[:140], key='vresize-limiting-side-exact')
     rr.ob('video reader maxsize has all three rescaling cases', {('maxsize', 'id', 'wr'), ('maxsize', 'hr', 'id'), ('maxsize', 'min', 'min')} <= seen, vmod, vfn, witness=str(sorted(x for x in seen if x[0] == 'maxsize')), key='vaspect-cases|maxsize')
+    if {('resize', 'cmp', 'w'), ('resize', 'cmp', 'h')} <= seen:
+        seen.add(('resize', 'min', 'min'))       # the general case written as a comparison of the two ratios with one arm per limiting side
     rr.ob('video reader aspect-keeping resize has a general case scaled by the smaller ratio', ('resize', 'min', 'min') in seen, vmod, vfn, witness=str(sorted(x for x in seen if x[0] == 'resize')), key='vaspect-cases|resize')
 
 
